@@ -744,7 +744,8 @@ pub fn scenarios(prop: &str, tier: &str) -> Vec<Arc<dyn Scenario>> {
                 ));
                 let mut ab = a.clone();
                 ab.ingests.push(vec![(0, IKind::BigVal)]);
-                ab.ingests.push(vec![(0, IKind::WeakTomb)]);
+                // (no weak tombstones here: on keys written more than once they may legitimately
+                // resurrect an older value, which is outside C14 and C13's discipline)
                 v.push(std(
                     "C14-blob",
                     TreeCfg::small(keys_ab()).with_blob(16),
